@@ -93,13 +93,13 @@ theorem c02p_wEnc (i : Nat) (hi : i < 2) : c02p_Enc c02p_wL2 c02p_wSk (c02p_wCts
   exact h
 
 /-- the value the model returns: chain index 0 (after the switches), a size-3 ciphertext with correction factor 3 -/
-def c02p_wR : Nat × Ct := (c02p_wProg.eval c02p_wChain c02p_wCts (fun _ => (0, #[]))).toOption.getD default
-theorem c02p_wEval : c02p_wProg.eval c02p_wChain c02p_wCts (fun _ => (0, #[])) = .ok c02p_wR := nv_ok_of_isOk default (by decide +kernel)
+def c02p_wR : Nat × Ct := (c02p_wProg.eval c02p_wChain default #[] c02p_wCts (fun _ => (0, #[]))).toOption.getD default
+theorem c02p_wEval : c02p_wProg.eval c02p_wChain default #[] c02p_wCts (fun _ => (0, #[])) = .ok c02p_wR := nv_ok_of_isOk default (by decide +kernel)
 theorem c02p_wR_val : (c02p_wR.1, c02p_wR.2.polys.size, c02p_wR.2.cf) = (0, 3, 3) := by decide +kernel
 
 /-- the a-priori bookkeeping: 4·20·20 / 193 + 17·(1 + 3 + 9) = 229 for the switched product, 20 / 193 + 17·(1 + 3) = 68 for the switched
     input, sum 297, and 2·297 < Q' = 10961 -/
-theorem c02p_wUB : c02p_wProg.noiseUB c02p_wChain 3 (fun _ => (1, 1, 2, 20)) (fun _ => (0, 0)) = some (0, 3, 3, 297) := by decide +kernel
+theorem c02p_wUB : c02p_wProg.noiseUB c02p_wChain default 0 0 3 (fun _ => (1, 1, 2, 20)) (fun _ => (0, 0)) = some (0, 3, 3, 297) := by decide +kernel
 
 /-- NON-VACUITY of the levelled theorem -/
 theorem hom_program_bgv_levelled_example :
@@ -108,7 +108,9 @@ theorem hom_program_bgv_levelled_example :
         Spec.imod (c02p_wProg.shadow (c02p_wChain 1).n c02p_exM (fun _ _ => 0) j.val) (c02p_wChain c02p_wR.1).t.value)) :=
   hom_program_bgv_levelled c02p_wChainOK (sk := c02p_wSk) (by rw [show c02p_wChain 1 = c02p_wL2 from rfl, c02p_wFacts.1]; rfl)
     (S := 3) (by rw [show c02p_wChain 1 = c02p_wL2 from rfl, c02p_wFacts.1]; decide)
+    default #[] (fun _ _ => 0) (fun _ => 0) 0 0
     c02p_wCts (fun _ => (0, #[])) c02p_exM (fun _ _ => 0) (fun _ => (1, 1, 2, 20)) (fun _ => (0, 0)) c02p_wProg
+    (fun hu => by simp [c02p_wProg, LProg.usesRelin] at hu)
     (fun i hi => by
       have hi2 : i < 2 := by
         simp [c02p_wProg, LProg.ctInputs] at hi
